@@ -2813,6 +2813,10 @@ void MessageMap::invalidateCache(Message* message) {
 void MessageMap::addPollMessage(bool toFront, Message* message) {
   if (message != nullptr && message->getPollPriority() > 0) {
     lock();
+    if (message->m_pollOrder < g_lastPollOrder) {
+      // a message created after polling started (new definition, reload) must not start in the past
+      message->m_pollOrder = g_lastPollOrder + (unsigned int)message->m_pollPriority;
+    }
     message->m_lastPollTime = toFront ? 0 : m_pollMessages.size();
     m_pollMessages.push(message);
     unlock();
